@@ -71,6 +71,16 @@ func getAllRequestsWithinTimeRange(timeRange *dtu.MetricsTimeRange, myid utils.O
 	return allSearchRequests, nil
 }
 
+// Closes the tags tree readers that GetAllTagsTreesWithinTimeRange and
+// GetRotatedTagsTreesWithinTimeRange hand out; the caller must call it when it
+// is done with them (each reader holds its file open and locked against the
+// writer).
+func CloseTagsTrees(tagsTrees []*tagstree.AllTagTreeReaders) {
+	for _, allTagsTreeReader := range tagsTrees {
+		allTagsTreeReader.CloseAllTagTreeReaders()
+	}
+}
+
 func GetAllTagsTreesWithinTimeRange(timeRange *dtu.MetricsTimeRange, querySummary *summary.QuerySummary) ([]*tagstree.AllTagTreeReaders, error) {
 	allSearchRequests, err := getAllRequestsWithinTimeRange(timeRange, utils.None[int64](), querySummary)
 	if err != nil {
@@ -86,6 +96,7 @@ func GetAllTagsTreesWithinTimeRange(timeRange *dtu.MetricsTimeRange, querySummar
 		if err != nil {
 			err = fmt.Errorf("GetAllTagsTreesWithinTimeRange: failed to get tags tree reader for tthBaseDir: %s; err=%v", tthBaseDir, err)
 			log.Errorf(err.Error())
+			CloseTagsTrees(tagsTrees)
 			return nil, err
 		}
 
@@ -391,6 +402,7 @@ func applyTagValuesSearchOnlyOnSegments(mQuery *structs.MetricsQuery, allSearchR
 		}
 		sTime := time.Now()
 		err = attr.FindTagValuesOnly(mQuery, mRes.TagValues)
+		attr.CloseAllTagTreeReaders()
 
 		querySummary.UpdateTimeSearchingTagsTrees(time.Since(sTime))
 		querySummary.IncrementNumTagsTreesSearched(1)
@@ -546,6 +558,7 @@ func GetRotatedTagsTreesWithinTimeRange(timeRange *dtu.MetricsTimeRange, myid in
 		if err != nil {
 			err = fmt.Errorf("GetRotatedTagsTreesWithinTimeRange: failed to get tags tree reader for tthBaseDir: %s; err=%v", tthBaseDir, err)
 			log.Errorf(err.Error())
+			CloseTagsTrees(tagsTrees)
 			return nil, err
 		}
 
@@ -564,6 +577,7 @@ func GetTagKeysWithMostSeriesRequest(timeRange *dtu.MetricsTimeRange,
 	if err != nil {
 		return nil, err
 	}
+	defer CloseTagsTrees(tagsTreeReaders)
 
 	tagKeys := make(map[string]struct{})
 	for _, segmentTagTreeReader := range tagsTreeReaders {
